@@ -382,9 +382,9 @@ func drawClasses(rnd *vkit.Rand, n, pattern int) []int {
 func sequential(r *vkit.Report) {
 	subs := seqSubjects()
 	maxLen := r.Scale(6, 8)
-	patterns := r.Scale(4, 5)
+	patterns := r.Scale(4, 6)
 	pairMaxLen := r.Scale(6, 8)
-	triples := r.Scale(60, 400)
+	triples := r.Scale(60, 600)
 	var cfgs []seqCaseCfg
 	for si := range subs {
 		for n := 0; n <= maxLen; n++ {
